@@ -1,10 +1,10 @@
 (* C07 - proofs, part 5: the assembled model (Suite/C07.v) satisfies the checker on every
    well-formed case.  Parts 1-4: Proofs/C07Geom.v, C07Data.v, C07Bitmap.v, C07Guest.v. *)
 From VM Require Import Prelude.MachInt Prelude.Outcome Prelude.Tok Prelude.C1314List.
-From VM Require Impl.Address Impl.Volatile Impl.VolMem Impl.Guest Impl.Bitmap Impl.Io Impl.IoGuest.
+From VM Require Impl.Address Impl.Volatile Impl.VolMem Impl.Guest Impl.Bitmap Impl.Io Impl.IoGuest Impl.IoEnd.
 From VM Require Spec.C01 Spec.C14 Suite.C14.
 From VM Require Proofs.C01 Proofs.C02 Proofs.C03 Proofs.C09 Proofs.C14.
-From VM Require Proofs.C07Geom Proofs.C07Data Proofs.C07Bitmap Proofs.C07Guest.
+From VM Require Proofs.C07Geom Proofs.C07Data Proofs.C07Bitmap Proofs.C07Guest Proofs.C07Own Proofs.C07Copy.
 From VM Require Import Spec.C07 Suite.C07.
 
 (* what an accepting verdict of the checker means *)
@@ -199,31 +199,115 @@ Proof.
 Qed.
 
 (* ------------------------------------------------------------------ bitmaps *)
-Lemma bitmap_ops_cls_le bm op a b c : Bitmap.bm_inv bm -> 50 <= op <= 58 -> a < W64 ->
+Lemma bitmap_ops_cls_le bm op a b c : Bitmap.bm_inv bm -> (50 <= op <= 58 \/ 70 <= op <= 76) -> a < W64 ->
   bitmap_ops_cls bm op a b c <= 1.
 Proof.
   intros HI Hop Ha.
-  destruct (C07Bitmap.range_ops_total_lemma _ a b HI Ha) as ((b1 & E1 & _) & (b2 & E2 & _) & _).
-  destruct (C07Bitmap.bit_ops_total_lemma _ a HI) as ((b3 & E3 & _) & (b4 & E4 & _) & (v5 & E5) & (v6 & E6) & _).
+  destruct (C07Bitmap.range_ops_total_lemma _ a b HI Ha) as ((b1 & E1 & _) & (b2 & E2 & _) & (b0 & E0 & _)).
+  destruct (C07Bitmap.bit_ops_total_lemma _ a HI) as ((b3 & E3 & _) & (b4 & E4 & _) & (v5 & E5) & (v6 & E6) & (v7 & E7')).
   destruct (C07Bitmap.slice_ops_total_lemma _ (Bitmap.bs_new c) a b b HI)
     as ((b7 & E7 & _) & (v8 & E8) & _ & (v9 & E9)).
-  assert (Hc : op = 50 \/ op = 51 \/ op = 52 \/ op = 53 \/ op = 54 \/ op = 55 \/ op = 56 \/ op = 57 \/ op = 58) by lia.
-  destruct Hc as [->|[->|[->|[->|[->|[->|[->|[->| ->]]]]]]]]; cbn [bitmap_ops_cls];
-    rewrite ?E1, ?E2, ?E3, ?E4, ?E5, ?E6, ?E7, ?E8, ?E9; clia.
+  (* nested views: base = ((c + a) + b) wrapping *)
+  destruct (C07Bitmap.slice_ops_total_lemma _ (Bitmap.chain_base c [a; b]) a b b HI) as ((bA & EA & _) & _).
+  destruct (C07Bitmap.slice_ops_total_lemma _ (Bitmap.chain_base c [a; b]) b b b HI) as (_ & (vB & EB) & _).
+  destruct (C07Bitmap.slice_ops_total_lemma _ (Bitmap.chain_base c []) a b b HI) as ((bC & EC & _) & (vD & ED) & _).
+  assert (Hc : op = 50 \/ op = 51 \/ op = 52 \/ op = 53 \/ op = 54 \/ op = 55 \/ op = 56 \/ op = 57 \/ op = 58 \/
+               op = 70 \/ op = 71 \/ op = 72 \/ op = 73 \/ op = 74 \/ op = 75 \/ op = 76) by lia.
+  destruct Hc as [->|[->|[->|[->|[->|[->|[->|[->|[->|[->|[->|[->|[->|[->|[->| ->]]]]]]]]]]]]]]];
+    cbn [bitmap_ops_cls Bitmap.view_mark_o Bitmap.view_dirty_at_o];
+    rewrite ?E1, ?E2, ?E3, ?E4, ?E5, ?E6, ?E7, ?E8, ?E9, ?EA, ?EB, ?EC, ?ED, ?E0, ?E7'; clia.
 Qed.
-Lemma bitmap_cls_le bs ps op a b c : 50 <= op <= 58 -> 0 < ps -> bs < W64 -> a < W64 ->
+Lemma bitmap_cls_le bs ps op a b c : (50 <= op <= 58 \/ 70 <= op <= 76) -> 0 < ps -> bs < W64 -> a < W64 ->
   bitmap_cls bs ps op a b c <= 1.
 Proof.
   intros Hop Hps Hbs Ha. unfold bitmap_cls.
   apply bitmap_ops_cls_le; [apply C07Bitmap.new_inv_lemma; assumption|exact Hop|exact Ha].
 Qed.
 (* created, then enlarged (the sum of the byte sizes fits usize), then any operation *)
-Lemma bitmap_enl_cls_le m bs ps k op a b c : 50 <= op <= 58 -> 0 < ps -> bs + k < W64 -> a < W64 ->
+Lemma bitmap_enl_cls_le2 m bs ps k op a b c : (50 <= op <= 58 \/ 70 <= op <= 76) -> 0 < ps -> bs + k < W64 -> a < W64 ->
   bitmap_enl_cls m bs ps k op a b c <= 1.
 Proof.
   intros Hop Hps Hbs Ha. unfold bitmap_enl_cls.
   destruct (C07Bitmap.new_enlarge_inv_lemma m bs ps k Hps Hbs) as (b' & E & HI & _). rewrite E.
   apply bitmap_ops_cls_le; assumption.
+Qed.
+Lemma bitmap_enl_cls_le m bs ps k op a b c : 50 <= op <= 58 -> 0 < ps -> bs + k < W64 -> a < W64 ->
+  bitmap_enl_cls m bs ps k op a b c <= 1.
+Proof. intros Hop. apply bitmap_enl_cls_le2. left. exact Hop. Qed.
+(* the views of ops 70-76, stated on the model functions: nested BaseSlices (offsets of ANY size, added with
+   wrapping_add) and the Option<B> routes return on every bitmap with the representation invariant *)
+Lemma bitmap_views_total_lemma : forall b r chain off len, Bitmap.bm_inv b -> off < W64 ->
+  (exists b', Bitmap.view_mark_o r chain b off len = Val b') /\ (exists v, Bitmap.view_dirty_at_o r chain b off = Val v).
+Proof.
+  intros b r chain off len HI Ho.
+  destruct (C07Bitmap.range_ops_total_lemma _ off len HI Ho) as (_ & _ & (b0 & E0 & _)).
+  destruct (C07Bitmap.bit_ops_total_lemma _ off HI) as (_ & _ & _ & _ & (v7 & E7)).
+  destruct r; cbn [Bitmap.view_mark_o Bitmap.view_dirty_at_o]; try (split; eexists; reflexivity);
+    (destruct chain as [|o1 rest];
+     [split; eexists; eassumption|
+      destruct (C07Bitmap.slice_ops_total_lemma _ (Bitmap.chain_base o1 rest) off off len HI) as ((bA & EA & _) & (vB & EB) & _);
+      split; eexists; eassumption]).
+Qed.
+
+(* ------------------------------------------------------------------ typed bulk copies *)
+Lemma copy_cls_le m pre n op ty a b c : 65 <= op <= 69 -> n <= ISZ_MAX -> copy_cls m pre n op ty a b c <= 1.
+Proof.
+  intros Hop Hn.
+  set (h := heap0 pre n). set (s := {| VolMem.vs_addr := pre; VolMem.vs_size := n |}). set (t := vty2 ty).
+  assert (Hs : VolMem.vs_size s <= ISZ_MAX) by exact Hn.
+  assert (Hc : op = 65 \/ op = 66 \/ op = 67 \/ op = 68 \/ op = 69) by lia.
+  destruct Hc as [->|[->|[->|[->| ->]]]]; cbn [copy_cls]; fold h; fold s; fold t; change (tsize ty) with (VolMem.ty_size t).
+  - destruct (C07Copy.slice_then_copy_to_total m h s t (zeros c) a b Hs) as [[e E]|(sl & v & E & Ev)]; rewrite E; [lia|rewrite Ev; clia].
+  - destruct (C07Copy.slice_then_copy_from_total m h s t (zeros c) a b Hs) as [[e E]|(sl & v & E & Ev)]; rewrite E; [lia|rewrite Ev; clia].
+  - destruct (C07Copy.array_then_copies_total m h s t (zeros c) a b s) as [[e E]|(arr & E & (v1 & E1) & _)]; rewrite E; [lia|rewrite E1; clia].
+  - destruct (C07Copy.array_then_copies_total m h s t (zeros c) a b s) as [[e E]|(arr & E & _ & (v2 & E2) & _)]; rewrite E; [lia|rewrite E2; clia].
+  - destruct (VolMem.vs_get_slice s c (n - c)) as [dsl|e'] eqn:Ed.
+    + destruct (C07Copy.array_then_copies_total m h s t (zeros c) a b dsl) as [[e E]|(arr & E & _ & _ & (v3 & E3))]; rewrite E; [lia|rewrite E3; clia].
+    + destruct (C07Copy.array_then_copies_total m h s t (zeros c) a b s) as [[e E]|(arr & E & _)]; rewrite E; lia.
+Qed.
+
+(* ------------------------------------------------------------------ the crate's own stream endpoints *)
+Lemma nlen_zeros n : nlen (zeros n) = n.
+Proof. unfold nlen, zeros. rewrite repeat_length. apply N2Nat.id. Qed.
+Lemma own_exec_cls md fuel t x s m addr count v : IoEnd.own_exec md fuel t x s m addr count = Val v -> snd v <= 1.
+Proof.
+  unfold IoEnd.own_exec. intros H.
+  destruct t; destruct x; apply omap_val in H; destruct H as (y & _ & ->); cbn [snd];
+    destruct (snd y); cbv [IoEnd.ocls_res IoEnd.ocls_gres]; lia.
+Qed.
+Lemma own_P_of op k x B dlen pos : oxfer_of op k = Some x -> dlen < W64 -> pos < W64 -> (k = 2 -> dlen + B < W64) ->
+  C07Own.own_P x B {| Io.s_data := zeros dlen; Io.s_pos := pos; Io.s_out := [] |}.
+Proof.
+  intros Hx Hd Hp Hv.
+  assert (Hcur : Proofs.C13.cur_ok {| Io.s_data := zeros dlen; Io.s_pos := pos; Io.s_out := [] |}).
+  { unfold Proofs.C13.cur_ok. cbn [Io.s_pos Io.s_data]. rewrite nlen_zeros. split; assumption. }
+  assert (Hrd : forall rk, C07Own.rd_P rk B {| Io.s_data := zeros dlen; Io.s_pos := pos; Io.s_out := [] |}).
+  { intros [ | | ]; cbn [C07Own.rd_P]; [exact I|exact Hcur|exact I]. }
+  assert (Hwr : forall wk, wk_of k = Some wk -> C07Own.wr_P wk B {| Io.s_data := zeros dlen; Io.s_pos := pos; Io.s_out := [] |}).
+  { intros wk Hk. unfold wk_of in Hk.
+    destruct (N.eqb_spec k 1); [inversion Hk; exact I|]. destruct (N.eqb_spec k 2) as [E2|_].
+    - inversion Hk. cbn [C07Own.wr_P Io.s_data]. rewrite nlen_zeros. apply Hv. exact E2.
+    - destruct (k =? 4); [inversion Hk; exact Hcur|]. destruct (k =? 6); [inversion Hk; exact I|discriminate]. }
+  unfold oxfer_of in Hx.
+  destruct (op =? 61); [destruct (rk_of k) as [rk|]; [inversion Hx; apply Hrd|discriminate]|].
+  destruct (op =? 62); [destruct (rk_of k) as [rk|]; [inversion Hx; apply Hrd|discriminate]|].
+  destruct (op =? 63); [destruct (wk_of k) as [wk|] eqn:Ek; [inversion Hx; apply Hwr; reflexivity|discriminate]|].
+  destruct (op =? 64); [destruct (wk_of k) as [wk|] eqn:Ek; [inversion Hx; apply Hwr; reflexivity|discriminate]|discriminate].
+Qed.
+
+Ltac b2p H := repeat (rewrite ?andb_true_iff, ?orb_true_iff, ?N.leb_le, ?N.ltb_lt, ?N.eqb_eq in H).
+
+Lemma own_cls_le c : own_wf c = true -> q_b c < W64 -> own_cls c <= 1.
+Proof.
+  unfold own_wf, own_cls. destruct (otarget_of c) as [[t ml]|]; [|discriminate].
+  destruct (q_x c) as [|k [|dlen [|pos [|z x]]]]; try discriminate.
+  destruct (oxfer_of (q_op c) k) as [x|] eqn:Ex; [|discriminate].
+  intros H Hb. repeat (apply andb_true_iff in H; let W := fresh "W" in destruct H as [H W]).
+  apply N.ltb_lt in H. apply N.ltb_lt in W2.
+  assert (HP : C07Own.own_P x (IoEnd.tbytes t) {| Io.s_data := zeros dlen; Io.s_pos := pos; Io.s_out := [] |}).
+  { apply (own_P_of (q_op c) k); [exact Ex|exact H|exact W2|]. intros ->. change (2 =? 2) with true in W. apply N.ltb_lt in W. exact W. }
+  destruct (C07Own.own_exec_total_lemma (q_mode c) (own_fuel t) t x _ (zeros ml) (q_a c) (q_b c) Hb HP ltac:(unfold own_fuel; lia)) as [v E].
+  rewrite E. cbn [cls_out]. exact (own_exec_cls _ _ _ _ _ _ _ _ _ E).
 Qed.
 
 (* ------------------------------------------------------------------ checked_align_up *)
@@ -253,13 +337,12 @@ Qed.
 
 (* ------------------------------------------------------------------ assembly *)
 Lemma op_ok_tgt tgt op : op_ok tgt op = true ->
-  tgt = 0 \/ tgt = 1 \/ tgt = 2 \/ tgt = 3 \/ tgt = 4 \/ tgt = 5 \/ tgt = 6 \/ tgt = 7.
+  tgt = 0 \/ tgt = 1 \/ tgt = 2 \/ tgt = 3 \/ tgt = 4 \/ tgt = 5 \/ tgt = 6 \/ tgt = 7 \/ tgt = 8.
 Proof.
   unfold op_ok. destruct tgt as [|p]; [auto|].
-  do 3 (try destruct p as [p|p|]); intros H; try discriminate; auto 10.
+  do 4 (try destruct p as [p|p|]); intros H; try discriminate; auto 12.
 Qed.
 
-Ltac b2p H := repeat (rewrite ?andb_true_iff, ?orb_true_iff, ?N.leb_le, ?N.ltb_lt, ?N.eqb_eq in H).
 Ltac closed_eqb :=
   repeat match goal with
   | |- context [N.eqb ?x ?y] => let v := eval vm_compute in (N.eqb x y) in change (N.eqb x y) with v
@@ -293,32 +376,52 @@ Proof.
     apply doc_arr; assumption.
 Qed.
 
+(* one call on a real slice of n bytes at arena offset pre (target kinds 0 and 8) *)
+Lemma real_slice_case c pre n : geom_root c = Some (ASlice (VS (HB + pre) n)) -> HB + pre + n <= ISZ_MAX ->
+  (q_op c <= 20 \/ 65 <= q_op c <= 69) ->
+  ok_C07 c (if q_op c =? 9 then cls_dres (Volatile.compute_end_offset n (q_a c) (q_b c))
+            else if q_op c =? 10 then cls_dres (Volatile.compute_offset (q_a c) (q_b c))
+            else if q_op c <=? 12 then geom_cls c
+            else if q_op c <=? 20 then data_cls (q_mode c) pre n (q_op c) (q_ty c) (q_a c) (q_b c)
+            else copy_cls (q_mode c) pre n (q_op c) (q_ty c) (q_a c) (q_b c) (q_c c)) = true.
+Proof.
+  intros Er Hn Hop. pose proof Proofs.C01.W64_gt_ISZ as HIW.
+  destruct (N.eqb_spec (q_op c) 9); [apply ok_le1, cls_dres_le|].
+  destruct (N.eqb_spec (q_op c) 10); [apply ok_le1, cls_dres_le|].
+  destruct (N.leb_spec (q_op c) 12).
+  - apply (geom_case c (ASlice (VS (HB + pre) n))); [exact Er| |left; eexists; reflexivity|lia].
+    unfold Spec.C01.acc_valid. cbn [acc_base acc_len vs_addr vs_size]. lia.
+  - destruct (N.leb_spec (q_op c) 20); [apply ok_le1, data_cls_le; lia|].
+    apply ok_le1, copy_cls_le; lia.
+Qed.
+
 Lemma C07_model_ok_lemma : forall c, wf07 c = true -> ok_C07 c (run_C07 c) = true.
 Proof.
   intros c H. unfold wf07 in H.
   repeat (apply andb_true_iff in H; let W := fresh "W" in destruct H as [H W]).
   (* H op_ok, W5 wf_tgt, W4 ty, W3 a, W2 b, W1 c, W0 buffer bound, W stream / script *)
   pose proof (op_ok_tgt _ _ H) as Ht.
-  b2p W4. b2p W3. b2p W2. b2p W1.
+  b2p W3. b2p W2. b2p W1.
   unfold run_C07.
   destruct ((21 <=? q_op c) && (q_op c <=? 24)) eqn:Es.
   { destruct (case14_of c) as [c14|] eqn:E14; [|discriminate].
     apply ok_le1. eapply stream_cls_le; eassumption. }
+  destruct ((61 <=? q_op c) && (q_op c <=? 64)) eqn:Eo.
+  { apply ok_le1. apply own_cls_le; assumption. }
   assert (Hns : q_op c < 21 \/ 24 < q_op c).
   { apply andb_false_iff in Es. destruct Es as [E|E]; [apply N.leb_gt in E|apply N.leb_gt in E]; lia. }
-  clear Es W. pose proof Proofs.C01.W64_gt_ISZ as HIW.
+  assert (Hno : q_op c < 61 \/ 64 < q_op c).
+  { apply andb_false_iff in Eo. destruct Eo as [E|E]; [apply N.leb_gt in E|apply N.leb_gt in E]; lia. }
+  assert (Hty : 65 <= q_op c <= 69 \/ q_ty c <= 3).
+  { destruct ((65 <=? q_op c) && (q_op c <=? 69)) eqn:E5; b2p E5; [left; lia|right; apply N.leb_le; exact W4]. }
+  clear Es Eo W W4. pose proof Proofs.C01.W64_gt_ISZ as HIW.
   destruct c as [m tgt par op ty a b cc x]. cbn [q_mode q_tgt q_par q_op q_ty q_a q_b q_c q_x] in *.
   unfold wf_tgt in W5. cbn [q_tgt q_par] in W5.
-  destruct Ht as [->|[->|[->|[->|[->|[->|[->| ->]]]]]]]; unfold op_ok in H.
+  destruct Ht as [->|[->|[->|[->|[->|[->|[->|[->| ->]]]]]]]]; unfold op_ok in H.
   - (* real slice *)
     destruct par as [|pre [|n [|z par]]]; try discriminate. b2p W5. b2p H. destruct W5 as [Hpre Hn].
     set (c := {| q_mode := m; q_tgt := 0; q_par := [pre; n]; q_op := op; q_ty := ty; q_a := a; q_b := b; q_c := cc; q_x := x |}).
-    destruct (N.eqb_spec op 9); [apply ok_le1, cls_dres_le|].
-    destruct (N.eqb_spec op 10); [apply ok_le1, cls_dres_le|].
-    destruct (N.leb_spec op 12).
-    + apply (geom_case c (ASlice (VS (HB + pre) n))); [reflexivity| |left; eexists; reflexivity|cbn [q_op c]; lia].
-      unfold Spec.C01.acc_valid. cbn [acc_base acc_len vs_addr vs_size]. lia.
-    + apply ok_le1, data_cls_le. lia.
+    apply (real_slice_case c pre n); [reflexivity|exact Hn|cbn [q_op c]; lia].
   - (* fake slice *)
     destruct par as [|A [|n [|z par]]]; try discriminate. b2p W5. b2p H. destruct W5 as [[HA HAn] Hn].
     set (c := {| q_mode := m; q_tgt := 1; q_par := [A; n]; q_op := op; q_ty := ty; q_a := a; q_b := b; q_c := cc; q_x := x |}).
@@ -334,7 +437,10 @@ Proof.
     + apply (geom_case c (ARegion (RG HB n))); [reflexivity| |right; eexists; reflexivity|cbn [q_op c]; lia].
       unfold Spec.C01.acc_valid. cbn [acc_base acc_len rg_addr rg_size]. lia.
     + destruct (N.leb_spec op 20); [apply ok_le1, data_cls_le; lia|].
-      apply ok_le1, region_cls_le; lia.
+      destruct ((65 <=? op) && (op <=? 69)) eqn:E5.
+      * b2p E5. apply ok_le1, copy_cls_le; lia.
+      * assert (op < 65 \/ 69 < op) by (apply andb_false_iff in E5; destruct E5 as [E|E]; apply N.leb_gt in E; lia).
+        apply ok_le1, region_cls_le; lia.
   - (* GuestMemoryMmap *)
     destruct (layout_of par) as [L|] eqn:EL; [|discriminate]. b2p W5. b2p H. destruct W5 as [[_ HL] _].
     apply ok_le1, guest_cls_le; [apply (wf_layb_sound (W64 - 1)); [lia|exact HL]|lia|lia|lia|lia].
@@ -355,5 +461,9 @@ Proof.
       destruct (Address.a_checked_align_up m a b) as [r| |]; cbn [cls_out]; [destruct r; cbv [cls_opt]; auto| |]; auto.
   - (* bitmap created, then enlarged *)
     destruct par as [|bs [|ps [|k [|z par]]]]; try discriminate. b2p W5. b2p H.
-    apply ok_le1, bitmap_enl_cls_le; lia.
+    apply ok_le1, bitmap_enl_cls_le2; lia.
+  - (* ByteValued::as_bytes of an object in the arena *)
+    destruct par as [|pre [|oc [|z par]]]; try discriminate. b2p W5. b2p H. destruct W5 as [_ Hn].
+    set (c := {| q_mode := m; q_tgt := 8; q_par := [pre; oc]; q_op := op; q_ty := ty; q_a := a; q_b := b; q_c := cc; q_x := x |}).
+    apply (real_slice_case c pre (osize oc)); [reflexivity|exact Hn|cbn [q_op c]; lia].
 Qed.
